@@ -158,6 +158,10 @@ def _special(_):
                 if other != sub:
                     shutil.rmtree(os.path.join(path, other))
         expect_refused("directory holds %s/ but no hashstore.yaml" % sub, good, True, prep)
+    for k in ("store_algorithm", "store_metadata_namespace"):
+        for variant in (lambda v: v + "\n", lambda v: " " + v, lambda v: v + " ", lambda v: v.lower(), lambda v: v + "/"):
+            expect_refused("%s differing from the pinned value only by whitespace / case / a trailing character" % k,
+                           dict(good, **{k: variant(good[k])}))
     # a configuration file that lost a key does not pin the store any more: it must be refused
     import re
     for k in ("store_depth", "store_width", "store_algorithm", "store_metadata_namespace"):
